@@ -150,8 +150,11 @@ class Check:
         EVIDENCE_DIR.mkdir(exist_ok=True)
         (EVIDENCE_DIR / f"{self.pid}.json").write_text(json.dumps(ev, indent=1, default=str))
 
+        printed = set()
         for v, k in known_hits:
-            print(f"KNOWN-FINDING: property={self.pid} {v['key']}: {k.get('what', v['what'])}")
+            if v["key"] not in printed:
+                printed.add(v["key"])
+                print(f"KNOWN-FINDING: property={self.pid} {v['key']}: {k.get('what', v['what'])}")
         for v, _ in new_violations:
             print(f"  counterexample [{v['key']}]: {v['what']}")
             print(f"VIOLATION property={self.pid} replay={v['replay']}")
